@@ -15,11 +15,14 @@ FAITHFUL = ["ContainerOK", "TopIsHeight", "StorageShape", "RestartResumes", "NoR
 
 def _tier(tier):
     if tier == "quick":
-        return dict(mc=[("Controller_quick_light.cfg", 45), ("Controller_quick_full.cfg", 45)], mc_workers=4,
+        # (cfg, stop_after seconds, workers); *_faults_*: failing storage writes (MaxWriteFaults > 0)
+        return dict(mc=[("Controller_quick_light.cfg", 45, 4), ("Controller_quick_full.cfg", 45, 4),
+                        ("Controller_quick_faults_light.cfg", 45, 2), ("Controller_quick_faults_full.cfg", 45, 2)],
                     sims=[("Controller_sim_light.cfg", 170, 14), ("Controller_sim_full.cfg", 170, 14)],
                     record_runs=100)
-    return dict(mc=[("Controller_thorough_light.cfg", 1800), ("Controller_thorough_full.cfg", 1800),
-                    ("Controller_thorough_full3.cfg", 1800)], mc_workers=4,
+    return dict(mc=[("Controller_thorough_light.cfg", 1800, 4), ("Controller_thorough_full.cfg", 1800, 4),
+                    ("Controller_thorough_full3.cfg", 1800, 4),
+                    ("Controller_thorough_faults_light.cfg", 1800, 3), ("Controller_thorough_faults_full.cfg", 1800, 3)],
                 sims=[("Controller_sim_light.cfg", 1500, 18), ("Controller_sim_full.cfg", 1500, 18)],
                 record_runs=1500)
 
@@ -34,6 +37,15 @@ ATTACKS = [  # (cfg, named deviation, property whose counterexample is the attac
     ("Controller_attack_loadnoheight.cfg", "LoadHighestInstance does not restore the height: RestartResumes"),
     ("Controller_attack_histfirst.cfg", "saveInstance writes the historical record before the highest record, crash between "
                                         "the two writes: RestartCoversLearned"),
+    ("Controller_attack_compactmsground.cfg", "compactInstanceIfNeeded trims the commits to the round of the message it is handed: "
+                                              "HighestMonotoneCert"),
+    # failing storage writes
+    ("Controller_attack_saveerr.cfg", "UponDecided returns the error of a failed save before the height bump (light node): NoRerun"),
+    ("Controller_attack_saveerrnobump.cfg", "UponDecided bumps the height only when the save succeeded (full node): NoRerun"),
+    ("Controller_attack_saveerrundecides.cfg", "UponDecided marks the instance undecided again when the save failed (full node, "
+                                               "historical write fails after the highest write): HighestMonotoneCert"),
+    ("Controller_attack_savecontinues.cfg", "saveInstance writes the historical record although the highest write failed: "
+                                            "RestartCoversLearned"),
 ]
 # counterexamples of the FAITHFUL spec to the literal reading of the property's last sentence (recorded finding):
 FINDINGS = [
@@ -61,9 +73,9 @@ def run(tier, seed):
     os.makedirs(wd, exist_ok=True)
 
     # TLC runs are independent: exhaustive configs, simulations and the small attack/finding/observe configs in parallel
-    ex = ThreadPoolExecutor(max_workers=8)
+    ex = ThreadPoolExecutor(max_workers=10)
     f_rec = [ex.submit(_record_and_validate, binc, wd, full, seed, T["record_runs"]) for full in (False, True)]
-    f_mc = [(cfg, ex.submit(vlib.tlc, "Controller", cfg, None, T["mc_workers"], sa + 600, sa)) for cfg, sa in T["mc"]]
+    f_mc = [(cfg, ex.submit(vlib.tlc, "Controller", cfg, None, wk, sa + 600, sa)) for cfg, sa, wk in T["mc"]]
     f_sim = [(cfg, ex.submit(vlib.tlc_simulate, "Controller", cfg, num, depth, seed, None, 1800, None,
                              ["act"] + STATE_VARS)) for cfg, num, depth in T["sims"]]
     f_small = [ex.submit(_small, cfg) for cfg, _ in ATTACKS + FINDINGS + OBSERVE]
@@ -173,7 +185,8 @@ def run(tier, seed):
         "samples": res["samples"][:1] + [sample_trace],
         "evaluations": res["steps"] + rec_steps,
         "distinct_nontrivial": _distinct_nontrivial(behs + special) + rec_distinct,
-        "rule": "behaviours = seeded TLC simulations of the faithful spec (light and full node) + attack traces of the "
+        "rule": "behaviours = seeded TLC simulations of the faithful spec (light and full node, incl. failing storage "
+                "writes) + attack traces of the "
                 "weakened specs + finding/observation traces + seeded executions generated on the real code and accepted "
                 "by ControllerTrace.tla; non-trivial = contains a decided certificate, a local decision or a restart",
         "exhaustive": bool(exhaustive),
@@ -184,6 +197,10 @@ def run(tier, seed):
         "exhaustive results hold for the stated constants (heights 0..MaxH, restarts <= MaxRestarts, container capacity 2)",
         "a crash happens between two calls of the runner or inside a call right before any of its database writes "
         "(a single database Set is atomic; the two Sets of SaveHighestAndHistoricalInstance are separate crash points)",
+        "storage-write failures: any database Set of a save may return an error and write nothing (at most MaxWriteFaults "
+        "per behaviour, not combined with a crash inside the same call); reads do not fail. What was learned in memory "
+        "counts until the next restart, after a restart only what is stored counts: a decision whose write failed may "
+        "legitimately be forgotten by a restart",
         "kv.NewInMemory stands in for the on-disk database; BLS verification is trusted",
         "the height-0 special case of ShouldProcessDuty (c.Height = 0 means 'nothing yet') is excluded explicitly from NoRerun",
     ], len(verdict.violations))
@@ -214,7 +231,7 @@ def _distinct_nontrivial_trace(path):
                 seen.add(json.dumps(cur))
             cur = []
             continue
-        cur.append([e["event"]] + [e.get(k) for k in ("slot", "h", "r", "n", "ok")])
+        cur.append([e["event"]] + [e.get(k) for k in ("slot", "h", "r", "n", "ok", "fail")])
     if any(x[0] in NONTRIVIAL for x in cur):
         seen.add(json.dumps(cur))
     return len(seen)
